@@ -16,14 +16,21 @@ Fmts == {"u3", "u2", "u0", "s3", "s2", "s0"}
 Keys == {K1, K2, K3}
 Others(k, tok) == (Keys \ {k}) \cup {k \o "x", k \o " "} \cup (IF tok THEN {} ELSE {""})
 
-Pairs == IF Tier = "thorough"
-         THEN {P0, P1, P2, P3, P4} \X Keys
-         ELSE {<<P0, K1>>, <<P2, K3>>}
+(* thorough: the full product for the formats whose key derivation is cheap; for  *)
+(* the Argon2id / PBKDF2 formats (40 ms and 15 ms per call, every edit pays it)    *)
+(* every plaintext under one key and two plaintexts under the other keys           *)
+Costly == {"u3", "u2", "s3"}
+Pairs(f) == IF Tier = "thorough"
+            THEN (IF f \in Costly
+                  THEN ({P0, P1, P2, P3, P4} \X {K1}) \cup ({P1, P2} \X {K2, K3})
+                  ELSE {P0, P1, P2, P3, P4} \X Keys)
+            ELSE {<<P0, K1>>, <<P2, K3>>}
 TokPairs == IF Tier = "thorough"
             THEN {<<T1, K3>>, <<T2, K1>>, <<T3, K2>>}
             ELSE {<<T1, K3>>}
 
-Requests == {[fmt |-> f, pt |-> p[1], pass |-> p[2], others |-> Others(p[2], FALSE)] : f \in Fmts, p \in Pairs}
+Requests == {[fmt |-> fp[1], pt |-> fp[2][1], pass |-> fp[2][2], others |-> Others(fp[2][2], FALSE)] :
+                fp \in UNION {{<<f, p>> : p \in Pairs(f)} : f \in Fmts}}
             \cup {[fmt |-> "tok", pt |-> p[1], pass |-> p[2], others |-> Others(p[2], TRUE)] : p \in TokPairs}
 
 Plan == [layout |-> Layout, requests |-> Requests]
